@@ -132,6 +132,9 @@ def random_schema(rng, hostile_names=True, max_classes=5, shapes=None, max_attrs
             if s is t:
                 continue
             tys = [rng.choice(CORE) for _ in range(rng.randint(2, 3))]
+            if rng.random() < 0.4:
+                # all components of one type (two rows may then carry the same values the other way round)
+                tys = [rng.choice(('INTEGER', 'STRING', 'UNIQUE_ID', 'REAL'))] * len(tys)
             keys = [add_attr(rng, t, ty, hostile_names) for ty in tys]
             refs = [add_attr(rng, s, ty, hostile_names) for ty in tys]
             rops.append(Rop(rel, s[0], refs, rng.choice(('M', 'MC', '1C')), '',
@@ -241,6 +244,9 @@ def key_roles(schema):
 SELF_LINKS = [0]
 
 
+PERMUTED_KEYS = [0]
+
+
 def resolved_population(rng, schema, max_inst=6, unset=True):
     '''
     Population whose referential values resolve (C01's domain): identifying
@@ -266,6 +272,18 @@ def resolved_population(rng, schema, max_inst=6, unset=True):
                 else:
                     row[a] = None if (unset and rng.random() < 0.08) else random_value(rng, ty)
             pop.rows[kind].append(row)
+    # compound keys: now and then two referred rows carry the same values the other way round
+    for r in schema.rops:
+        same = [(k1, k2) for n, k1 in enumerate(r.tgt_keys) for k2 in r.tgt_keys[n + 1:]
+                if types[(r.tgt, k1)].upper() == types[(r.tgt, k2)].upper()
+                and (r.tgt, k1) not in referential and (r.tgt, k2) not in referential]
+        rows = pop.rows[r.tgt]
+        if same and len(rows) >= 2 and rng.random() < 0.4:
+            k1, k2 = rng.choice(same)
+            i, j = rng.sample(range(len(rows)), 2)
+            if rows[i][k1] != rows[i][k2]:
+                PERMUTED_KEYS[0] += 1
+                rows[j][k1], rows[j][k2] = rows[i][k2], rows[i][k1]
     links = {}
     # referential attributes that are themselves identifying further down need
     # their values first: process rops until a fixed point (bounded)
